@@ -339,7 +339,8 @@ class GenericCheck(Check):
             test_value = ast.literal_eval(self.kind)
             return match == str(test_value)
 
-        except (ValueError, SyntaxError, MemoryError, RecursionError):
+        except (ValueError, TypeError, SyntaxError, MemoryError,
+                RecursionError):
             # not a literal (ast.literal_eval documents all of these)
             pass
 
